@@ -372,10 +372,26 @@ def _(n, items):
 def _(l, i): return oP(PL(l)[int(i)])
 @op('get_slice')
 def _(l, a, b): return oPL(PL(l)[slice(None if a is None else int(a), None if b is None else int(b))])
+def _mask_form(m, form):
+    if form == 'pylist':
+        return [bool(b) for b in m]
+    if form == 'npbool_list':
+        return [np.bool_(b) for b in m]
+    return np.array(m, dtype=np.bool_)
+
+
+def _idx_form(idx, form):
+    if form == 'pylist':
+        return [int(i) for i in idx]
+    if form == 'int32':
+        return np.array(idx, dtype=np.int32)
+    return np.array(idx, dtype=int)
+
+
 @op('get_mask')
-def _(l, m): return oPL(PL(l)[np.array(m, dtype=np.bool_)])
+def _(l, m, form='array'): return oPL(PL(l)[_mask_form(m, form)])
 @op('get_idx')
-def _(l, idx): return oPL(PL(l)[np.array(idx, dtype=int)])
+def _(l, idx, form='array'): return oPL(PL(l)[_idx_form(idx, form)])
 @op('list_neg')
 def _(l): return oPL(-PL(l))
 @op('list_rmul')
